@@ -120,3 +120,85 @@ Proof.
     rewrite (Proofs.BmtreeContractProofs.PathToIndexLoose_debug_eq T h (q ++ [b]) HT HH Hqb). now split.
   - now split.
 Qed.
+
+(** * the index range characterises the descendants *)
+
+Lemma subtree_fits : forall q T, 0 <= T -> rec_rank T q + T / 2 ^ Z.of_nat (length q) <= T.
+Proof.
+  induction q as [|b q IH]; intros T HT.
+  - cbn [rec_rank length]. change (2 ^ Z.of_nat 0) with 1. rewrite Z.div_1_r. lia.
+  - cbn [rec_rank length]. rewrite pow2_S.
+    rewrite <- Z.div_div by (pose proof (pow2_pos (Z.of_nat (length q))); lia).
+    assert (Hh : 0 <= T / 2) by (apply Z.div_pos; lia).
+    specialize (IH (T / 2) Hh). pose proof (half_decomp T) as Hd.
+    destruct b, (Z.testbit T 0); cbn [Z.b2z] in *; lia.
+Qed.
+
+Lemma rec_rank_nonneg : forall q T, 0 <= T -> 0 <= rec_rank T q.
+Proof.
+  induction q as [|b q IH]; intros T HT; cbn [rec_rank]; [lia|].
+  assert (Hh : 0 <= T / 2) by (apply Z.div_pos; lia). specialize (IH (T / 2) Hh).
+  destruct b, (Z.testbit T 0); cbn [Z.b2z]; lia.
+Qed.
+
+(** two nodes: one is a prefix of the other, or they diverge at some bit *)
+Lemma prefix_or_diverge : forall q r : node,
+  (exists r', r = q ++ r') \/ (exists b q', q = r ++ b :: q') \/
+  (exists c b q1 r1, q = c ++ b :: q1 /\ r = c ++ negb b :: r1).
+Proof.
+  induction q as [|a q IH]; intros r.
+  - left. now exists r.
+  - destruct r as [|a' r].
+    + right; left. now exists a, q.
+    + destruct (Bool.bool_dec a a') as [<-|Hne].
+      * destruct (IH r) as [[r' ->]|[[b [q' ->]]|(c & b & q1 & r1 & -> & ->)]].
+        -- left. now exists r'.
+        -- right; left. now exists b, q'.
+        -- right; right. now exists (a :: c), b, q1, r1.
+      * right; right. exists [], a, q, r. split; [reflexivity|].
+        cbn [app]. f_equal. destruct a, a'; try reflexivity; now elim Hne.
+Qed.
+
+Lemma subtree_exact T h q r : 1 <= T < 2 ^ 31 -> Height T = Z.of_nat h ->
+  (length q <= h)%nat -> (length r <= h)%nat -> stored T r = true ->
+  ((exists r', r = q ++ r') <->
+   pre_rank T h q <= pre_rank T h r < pre_rank T h q + T / 2 ^ Z.of_nat (length q)).
+Proof.
+  intros HT HH Hq Hr Hs. pose proof (T_range_h T h HT HH) as Hrange. split.
+  - intros [r' ->].
+    pose proof (PathToIndexLoose_descendant T h q r' HT HH Hr) as E.
+    rewrite (PathToIndexLoose_pre_rank T h (q ++ r') HT HH Hr) in E. injection E as E _.
+    rewrite stored_app in Hs.
+    destruct (subtree_range T h q r' HT HH Hr) as [[H0 _] Hlt]. specialize (Hlt Hs). lia.
+  - intros Hrg. destruct (prefix_or_diverge q r) as [Hp|[(b & q' & ->)|(c & b & q1 & r1 & -> & ->)]]; [exact Hp|exfalso|exfalso].
+    + (* r is a proper ancestor of q: it comes first *)
+      pose proof (pre_rank_mono T h r (r ++ b :: q') Hr Hs (pre_lt_descendant r b q')). lia.
+    + destruct b; cbn [negb] in *.
+      * (* q turns right where r turns left: r comes first *)
+        pose proof (pre_rank_mono T h _ _ Hr Hs (pre_lt_left_right c r1 q1)). lia.
+      * (* q turns left where r turns right: r comes after the whole subtree of q *)
+        rewrite !(rec_rank_pre_rank h T) in Hrg by assumption.
+        rewrite !rec_rank_app in Hrg by lia. cbn [rec_rank] in Hrg.
+        set (Tc := T / 2 ^ Z.of_nat (length c)) in *.
+        assert (HTc : 0 <= Tc) by (apply Z.div_pos; [lia|apply pow2_pos; lia]).
+        assert (Hh : 0 <= Tc / 2) by (apply Z.div_pos; lia).
+        pose proof (subtree_fits q1 (Tc / 2) Hh) as Hfit.
+        pose proof (rec_rank_nonneg r1 (Tc / 2) Hh) as Hnn.
+        assert (Esz : T / 2 ^ Z.of_nat (length (c ++ false :: q1)) = Tc / 2 / 2 ^ Z.of_nat (length q1)).
+        { rewrite app_length. cbn [length]. unfold Tc.
+          rewrite !Z.div_div by (try apply pow2_pos; lia).
+          f_equal. rewrite Nat2Z.inj_add, Nat2Z.inj_succ.
+          rewrite <- Z.add_1_l. rewrite !Z.pow_add_r by lia. change (2 ^ 1) with 2. lia. }
+        rewrite Esz in Hrg. lia.
+Qed.
+
+Lemma subtree_exact_idx T h q r i s j : 1 <= T < 2 ^ 31 -> Height T = Z.of_nat h ->
+  (length q <= h)%nat -> (length r <= h)%nat -> stored T r = true ->
+  PathToIndexLoose T (enc h q) = Some (i, s) -> PathToIndex T (enc h r) = Some j ->
+  ((exists r', r = q ++ r') <-> i <= j < i + T / 2 ^ Z.of_nat (length q)).
+Proof.
+  intros HT HH Hq Hr Hs Ei Ej.
+  rewrite (PathToIndexLoose_pre_rank T h q HT HH Hq) in Ei. injection Ei as <- _.
+  rewrite (PathToIndex_pre_rank T h r HT HH Hr) in Ej. injection Ej as <-.
+  now apply subtree_exact.
+Qed.
